@@ -101,6 +101,10 @@ def corpus():
     cs.append(_spline_case("spline", es, ns, [d], wts[:1], None, [[x + 1 / 128 for x in fe9], fn9], 0.5, 0.0))     # as many separate forces as data, weighted
     # non-uniform weights that are all tiny in absolute value (sigma ~ 1e5): still non-uniform
     cs.append(mk_trend(es, ns, d, [x * 1e-10 for x in wts[0]], 2, "corpus-trend-tiny-weights"))
+    # dampings that are elements of a candidate array: 0.5 and 0.25 (exact in float32), 2 and 1 (integers)
+    for dmp in (0.5, 0.25, 2.0, 1.0, 0.5, 2.0):
+        cs.append(_spline_case("spline", es, ns, [d], wts[:1], dmp, [[x + 1 / 128 for x in fe], fn_], 0.5, 0.0))
+        cs.append(mk_ls([[float((3 * i + 2 * j) % 7 - 3) for j in range(3)] for i in range(8)], [float((5 * i) % 9 - 4) / 2 for i in range(8)], None, dmp, "corpus-lstsq-numpy-damping"))
     # a TALL damped system (two interleaved surveys of different character, 41 000 rows): the column scales are those of ALL the rows
     tall = [[float((i * 7) % 11 - 5) * (1.0 if i % 2 else 16.0), float((i * 5) % 13 - 6) * (8.0 if i % 2 else 1.0), 1.0] for i in range(41000)]
     tc = mk_ls(tall, [0.25 * r_[0] - 0.5 * r_[1] + 3.0 + float((i * 3) % 17 - 8) / 4.0 for i, r_ in enumerate(tall)], None, 20000.0, "corpus-lstsq-tall-damped")
@@ -209,6 +213,20 @@ def _lay(values, role, case):
     return C.mkarr(values, shape, role + case["op"][:80])
 
 
+def _np_number(damping, key):
+    """The damping as the caller may hold it: a Python number, or a NumPy scalar (an element of an array of candidates) of a type that holds it
+    exactly - float64 always, float32 / int64 / int32 when the value survives."""
+    if damping is None:
+        return None
+    import zlib
+    forms = [float, np.float64]
+    if float(np.float32(damping)) == damping:
+        forms.append(np.float32)
+    if float(damping).is_integer():
+        forms += [np.int64, np.int32, int]
+    return forms[zlib.crc32(("damping" + key).encode()) % len(forms)](damping)
+
+
 def _fit(case):
     a = case["args"]
     fn = case["fn"]
@@ -217,6 +235,7 @@ def _fit(case):
         warnings.simplefilter("ignore")
         if fn == "lstsq":
             J, d, w, damping = a
+            damping = _np_number(damping, case["op"][:3000])
             p = least_squares(np.array(J), np.array(d), None if w is None else np.array(w), damping=damping, copy_jacobian=True)
             return {"params": [float(v) for v in p]}
         import zlib
@@ -231,6 +250,7 @@ def _fit(case):
             t.fit((L(es, "e"), L(ns, "n")), L(d, "d"), None if w is None else L(w, "w"))
             return {"params": [float(v) for v in t.coef_], "pred": [float(v) for v in t.predict((np.array(qe), np.array(qn)))]}
         es, ns, data, w, damping, force, poisson, mindist = a
+        damping = _np_number(damping, case["op"][:3000])
         coords = (L(es, "e"), L(ns, "n"))
         fc = None if force is None else (np.array(force[0]), np.array(force[1]))
         def other(x, i):
